@@ -60,6 +60,37 @@ pub fn felt_batch_inverse_or_zero(v: &[i16]) -> Vec<i16> {
         .collect()
 }
 
+/// The remaining operator impls (compound assignment, division, `multiply`); `b != 0` for "div".
+pub fn felt_op2(op: &str, a: i16, b: i16) -> i16 {
+    let (mut x, y) = (Felt::new(a), Felt::new(b));
+    match op {
+        "add_assign" => x += y,
+        "sub_assign" => x -= y,
+        "mul_assign" => x *= y,
+        "div" => x = x / y,
+        "multiply" => x = x.multiply(y),
+        _ => panic!("unknown op"),
+    }
+    x.value()
+}
+/// t = (a + b) * c - d computed without leaving the field type; returns (t, balanced(1/t or 0), t.is_zero(),
+/// ((a + b) - b) == a, (t + d) == ((a + b) * c)).
+pub fn felt_chain(a: i16, b: i16, c: i16, d: i16) -> (i16, i16, bool, bool, bool) {
+    use num::Zero;
+    let (fa, fb, fc, fd) = (Felt::new(a), Felt::new(b), Felt::new(c), Felt::new(d));
+    let s = fa + fb;
+    let mut t = s * fc;
+    let p = t;
+    t -= fd;
+    (
+        t.value(),
+        t.inverse_or_zero().balanced_value(),
+        t.is_zero(),
+        (s - fb) == fa,
+        (t + fd) == p,
+    )
+}
+
 // ---------------------------------------------------------------- Z_q transforms
 
 fn felt_poly(v: &[i16]) -> Polynomial<Felt> {
@@ -118,6 +149,18 @@ pub fn u32f_mul(a: u32, b: u32) -> u32 {
 }
 pub fn u32f_inverse_or_zero(a: u32) -> u32 {
     U32Field(a).inverse_or_zero().0
+}
+pub fn u32f_op2(op: &str, a: u32, b: u32) -> u32 {
+    let (mut x, y) = (U32Field(a), U32Field(b));
+    match op {
+        "add_assign" => x += y,
+        "sub_assign" => x -= y,
+        "mul_assign" => x *= y,
+        "div" => x = x / y,
+        "multiply" => x = x.multiply(y),
+        _ => panic!("unknown op"),
+    }
+    x.0
 }
 pub fn u32f_fft(v: &[u32]) -> Vec<u32> {
     let p = Polynomial::new(v.iter().map(|&a| U32Field(a)).collect::<Vec<_>>());
